@@ -178,7 +178,7 @@ Section Types.
       imported t ->
       denotes imps target (fst (type_lit L target c t)) t = true.
   Proof.
-    induction t as [n| | |pkg name ms|e IH|e IH|n e IH|k IHk v IHv|txt]; intros Herr Hif Himp; cbn [type_lit].
+    induction t as [n| | |pkg name u ms|e IH|e IH|n e IH|k IHk v IHv|txt]; intros Herr Hif Himp; cbn [type_lit].
     - cbn. apply bytes_eqb_refl.
     - cbn. reflexivity.
     - destruct Herr as [Herr|Herr]; [|cbn in Herr; discriminate]. rewrite Herr. cbn. reflexivity.
@@ -222,7 +222,7 @@ Section Types.
   Lemma type_lit_imports : forall t,
       snd (type_lit L target c t) = filter (fun p => negb (bytes_eqb p target)) (ty_pkgs t).
   Proof.
-    induction t as [n| | |pkg name ms|e IH|e IH|n e IH|k IHk v IHv|txt]; cbn [type_lit ty_pkgs filter]; try reflexivity.
+    induction t as [n| | |pkg name u ms|e IH|e IH|n e IH|k IHk v IHv|txt]; cbn [type_lit ty_pkgs filter]; try reflexivity.
     - destruct (bytes_eqb pkg target); reflexivity.
     - destruct (type_lit L target c e). exact IH.
     - destruct (type_lit L target c e). exact IH.
@@ -234,7 +234,7 @@ Section Types.
   Lemma type_lit_quals : forall t,
       oty_quals (fst (type_lit L target c t)) = map L (filter (fun p => negb (bytes_eqb p target)) (ty_pkgs t)).
   Proof.
-    induction t as [n| | |pkg name ms|e IH|e IH|n e IH|k IHk v IHv|txt]; cbn [type_lit ty_pkgs filter]; try reflexivity.
+    induction t as [n| | |pkg name u ms|e IH|e IH|n e IH|k IHk v IHv|txt]; cbn [type_lit ty_pkgs filter]; try reflexivity.
     - destruct (bytes_eqb pkg target); reflexivity.
     - destruct (type_lit L target c e). exact IH.
     - destruct (type_lit L target c e). exact IH.
@@ -300,14 +300,14 @@ Section Copy.
     { intros fc i0 H. assert (Hs : s = select_named (f_name f) fc) by congruence.
       rewrite Hs. apply select_named_field. }
     unfold field_stmt.
-    destruct (f_ty f) as [n| | |pkg name ms|e|e|n e|k v|txt] eqn:Et.
+    destruct (f_ty f) as [n| | |pkg name u ms|e|e|n e|k v|txt] eqn:Et.
     - intros H; inversion H; split; reflexivity.
     - intros H; inversion H; split; reflexivity.
     - destruct b; [apply Hsel|].
       destruct (fx_errnil c); [|discriminate]. intros H; inversion H; split; reflexivity.
     - destruct b; [apply Hsel|].
       destruct (scan_methods ms (false, false, true)) as [[hc hi] ptr].
-      destruct (bytes_eqb pkg target); apply Hsel.
+      destruct (bytes_eqb pkg target && negb (is_uiface u)); apply Hsel.
     - intros H; inversion H; split; reflexivity.
     - destruct (type_lit L target c (TSlice e)). intros H; inversion H; split; reflexivity.
     - intros H; inversion H; split; reflexivity.
@@ -540,14 +540,14 @@ Section Scoping.
     { intros fc i0 H. assert (Hs : s = select_named (f_name f) fc) by congruence.
       rewrite Hs. apply select_named_quals. }
     unfold field_stmt.
-    destruct (f_ty f) as [n| | |pkg name ms|e|e|n e|k v|txt] eqn:Et.
+    destruct (f_ty f) as [n| | |pkg name u ms|e|e|n e|k v|txt] eqn:Et.
     - intros H; inversion H; left; reflexivity.
     - intros H; inversion H; left; reflexivity.
     - destruct b; [intros H; left; eapply Hsel; exact H|].
       destruct (fx_errnil c); [|discriminate]. intros H; inversion H; left; reflexivity.
     - destruct b; [intros H; left; eapply Hsel; exact H|].
       destruct (scan_methods ms (false, false, true)) as [[hc hi] ptr].
-      destruct (bytes_eqb pkg target); intros H; left; eapply Hsel; exact H.
+      destruct (bytes_eqb pkg target && negb (is_uiface u)); intros H; left; eapply Hsel; exact H.
     - intros H; inversion H; left; reflexivity.
     - destruct (type_lit L target c (TSlice e)) as [o oi] eqn:El. intros H; inversion H. right.
       split; reflexivity.
@@ -657,12 +657,12 @@ Section Main.
     destruct (omitted omit (f_name f)); [apply IH; exact He|].
     assert (Hs : exists s j, field_stmt L target c
                    (match lookup (f_name f) repl with Some _ => true | None => false end) f = GOk s j).
-    { unfold field_stmt. destruct (f_ty f) as [n| | |pkg name ms|e|e|n e|k v|txt]; eauto.
+    { unfold field_stmt. destruct (f_ty f) as [n| | |pkg name u ms|e|e|n e|k v|txt]; eauto.
       - destruct (match lookup (f_name f) repl with Some _ => true | None => false end); eauto.
         rewrite He. eauto.
       - destruct (match lookup (f_name f) repl with Some _ => true | None => false end); eauto.
         destruct (scan_methods ms (false, false, true)) as [[hc hi] ptr].
-        destruct (bytes_eqb pkg target); eauto.
+        destruct (bytes_eqb pkg target && negb (is_uiface u)); eauto.
       - destruct (type_lit L target c (TSlice e)). eauto.
       - destruct (type_lit L target c (TMap k v)). eauto. }
     destruct Hs as [s [j Hs]]. rewrite Hs. apply IH. exact He.
@@ -739,11 +739,11 @@ Section Main.
   (* which statements convert: an unreplaced field whose type is not a named type is assigned or container-copied *)
   Lemma unreplaced_not_call : forall f s j,
       field_stmt L target c false f = GOk s j ->
-      (forall pkg name ms, f_ty f <> TNamed pkg name ms) ->
+      (forall pkg name u ms, f_ty f <> TNamed pkg name u ms) ->
       is_call s = false.
   Proof.
     intros f s j H Hn. unfold field_stmt in H.
-    destruct (f_ty f) as [n| | |pkg name ms|e|e|n e|k v|txt] eqn:Et.
+    destruct (f_ty f) as [n| | |pkg name u ms|e|e|n e|k v|txt] eqn:Et.
     - inversion H; reflexivity.
     - inversion H; reflexivity.
     - destruct (fx_errnil c); [|discriminate]. inversion H; reflexivity.
@@ -773,25 +773,25 @@ Section Main.
     rewrite IH; [|exact Hr]. destruct r; reflexivity.
   Qed.
 
-  Lemma foreign_plain_named_assigned : forall f pkg name ms s j,
-      f_ty f = TNamed pkg name ms ->
+  Lemma foreign_plain_named_assigned : forall f pkg name u ms s j,
+      f_ty f = TNamed pkg name u ms ->
       bytes_eqb pkg target = false ->
       no_as_methods ms = true ->
       field_stmt L target c false f = GOk s j ->
       s = SAssign (f_name f).
   Proof.
-    intros f pkg name ms s j Et Hp Hm H. unfold field_stmt in H. rewrite Et in H.
+    intros f pkg name u ms s j Et Hp Hm H. unfold field_stmt in H. rewrite Et in H.
     rewrite (scan_no_as ms false false true Hm) in H. rewrite Hp in H.
     destruct ms; inversion H; reflexivity.
   Qed.
 
   (* a replaced field of a named type is converted by the replacement's DeepCopyIntoAs *)
-  Lemma replaced_named_into : forall f pkg name ms s j,
-      f_ty f = TNamed pkg name ms ->
+  Lemma replaced_named_into : forall f pkg name u ms s j,
+      f_ty f = TNamed pkg name u ms ->
       field_stmt L target c true f = GOk s j ->
       s = SCallInto (f_name f) dc_into_name.
   Proof.
-    intros f pkg name ms s j Et H. unfold field_stmt in H. rewrite Et in H. inversion H. reflexivity.
+    intros f pkg name u ms s j Et H. unfold field_stmt in H. rewrite Et in H. inversion H. reflexivity.
   Qed.
 
   (* ---- origin of the type's own spec ---- *)
@@ -915,7 +915,7 @@ Proof. intros L. split; [vm_compute; reflexivity|]. intros imps. vm_compute. ref
 Definition w_o : bytes := bs "example.com/m/o".
 Definition w_shadow_ti : tinput :=
   mk_tinput (bs "x") true [(bs "x", RSel (Some (w_o, bs "T")))]
-            (Some [mk_field (bs "M") (TMap (TBasic (bs "string")) (TNamed w_o (bs "Inner") [])) []]) [] [].
+            (Some [mk_field (bs "M") (TMap (TBasic (bs "string")) (TNamed w_o (bs "Inner") UStruct [])) []]) [] [].
 
 Lemma scoping_refuted :
   exists g i, generate_type last_segment w_target all_fixed w_shadow_ti = TGen g i /\
@@ -930,9 +930,9 @@ Definition ex_time : bytes := bs "time".
 Definition ex_fields : list field :=
   [ mk_field (bs "A") (TBasic (bs "int")) (of_string "json:""a.b"" yaml:""x""");
     mk_field (bs "B") (TSlice (TBasic (bs "string"))) (bs "x.G[int @q %d 'r'");
-    mk_field (bs "C") (TMap (TBasic (bs "string")) (TNamed w_origin (bs "Inner") [])) [];
-    mk_field (bs "D") (TPtr (TNamed ex_time (bs "Duration") [])) (bs "d");
-    mk_field (bs "I") (TNamed w_origin (bs "Inner") []) (of_string "json:""i""");
+    mk_field (bs "C") (TMap (TBasic (bs "string")) (TNamed w_origin (bs "Inner") UStruct [])) [];
+    mk_field (bs "D") (TPtr (TNamed ex_time (bs "Duration") UOther [])) (bs "d");
+    mk_field (bs "I") (TNamed w_origin (bs "Inner") UStruct []) (of_string "json:""i""");
     mk_field (bs "E") TError [];
     mk_field (bs "G") TAny (bs "g") ].
 Definition ex_ti : tinput :=
